@@ -181,3 +181,43 @@ def shipped_strings(lang):
             for s in l.split(' '):
                 add(s)
     return list(seen)
+
+
+# ---- the categories the command line offers as roots of a Japanese tree ------------------------------
+
+JA_ROOTS_DOC = [
+    'NP[case=nc,mod=nm,fin=f]', 'NP[case=nc,mod=nm,fin=t]', 'S[mod=nm,form=attr,fin=t]', 'S[mod=nm,form=base,fin=f]',
+    'S[mod=nm,form=base,fin=t]', 'S[mod=nm,form=cont,fin=f]', 'S[mod=nm,form=cont,fin=t]', 'S[mod=nm,form=da,fin=f]',
+    'S[mod=nm,form=da,fin=t]', 'S[mod=nm,form=hyp,fin=t]', 'S[mod=nm,form=imp,fin=f]', 'S[mod=nm,form=imp,fin=t]',
+    'S[mod=nm,form=r,fin=t]', 'S[mod=nm,form=s,fin=t]', 'S[mod=nm,form=stem,fin=f]', 'S[mod=nm,form=stem,fin=t]',
+]
+
+
+def cli_root_cats(lang):
+    """the default of `--root-cats` of the `en` / `ja` sub-command in depccg/argparse.py, read from the
+    source text (the function that builds the parser cannot be imported without the annotators);
+    None when the text cannot be found"""
+    import re
+    try:
+        src = open(os.path.join(REPO, 'depccg', 'argparse.py'), encoding='utf-8').read()
+    except OSError:
+        return None
+    chunks = src.split("'--root-cats'")[1:]
+    if len(chunks) != 2:
+        return None
+    body = chunks[0 if lang == 'en' else 1].split('help=')[0]
+    lits = re.findall(r"'([^'\n]*)'", body)
+    text = ''.join(lits)
+    cats = [c for c in text.split('|') if c]
+    return cats or None
+
+
+def ja_sentence_categories():
+    """what "root category" means for the sentence-sequencing rule SSEQ, independently of
+    depccg/grammar/ja.py: the command line's Japanese root categories; the documented list is used
+    when the command-line source cannot be read, and the two are intersected otherwise (a category
+    counts as a root only if nothing contradicts it)"""
+    cli = cli_root_cats('ja')
+    if cli is None:
+        return list(JA_ROOTS_DOC)
+    return [c for c in cli if c in JA_ROOTS_DOC] or list(JA_ROOTS_DOC)
